@@ -119,6 +119,27 @@ def planType (s : Schema) (col : Collector) : Nat → TRef → List Sel → Opti
           fun cases => Shape.obj nn true cases
 end
 
+/-! ### field interceptors (`AroundFields` / `OperationContext.ResolverMiddleware`)
+
+`field.gotpl` runs everything a field does - schema directives, then the resolver or the struct read - inside
+`ec.ResolverMiddleware(ctx, func(rctx) (any, error) { ... })`, for every field of every object (not for
+`__typename`). An installed interceptor is therefore one more wrapper, outermost: in the model, a directive
+named `~around` at the end of every field's chain (`runDirs`: the last one is outermost). Its outcome comes
+from the oracle like a directive's: pass (calls `next`), error, panic, or `(nil, nil)` without calling `next`. -/
+mutual
+def Shape.around : Shape → Shape
+  | .leaf nn => .leaf nn
+  | .obj nn b cases => .obj nn b (casesAround cases)
+  | .list nn ec e => .list nn ec e.around
+def casesAround : List (String × List (FInfo × Shape)) → List (String × List (FInfo × Shape))
+  | [] => []
+  | (c, fs) :: rest => (c, fieldsAround fs) :: casesAround rest
+def fieldsAround : List (FInfo × Shape) → List (FInfo × Shape)
+  | [] => []
+  | (fi, sh) :: rest =>
+    ((if fi.name == "__typename" then fi else { fi with dirs := fi.dirs ++ ["~around"] }), sh.around) :: fieldsAround rest
+end
+
 /-! distinct response keys in every collected field list (decidable form of `Shape.WF`) -/
 mutual
 def Shape.wfb : Shape → Bool
